@@ -280,6 +280,11 @@ func C02(sp *spec.Spec, ex *rt.Exchange) *Verdict {
 	if ex.StubCalls != 1 {
 		v.add("service-method-invoked-more-than-once", "service method invoked %d times for one request", ex.StubCalls)
 	}
+	for _, l := range ex.LateChange {
+		if strings.HasPrefix(l, "stub_in:") {
+			v.add("payload-changed-after-delivery:"+payloadKind(sp, m), "the payload handed to the service method changed after the call returned (memory shared with later requests): %s", l)
+		}
+	}
 	if ex.Case.NoPay || m.Payload == nil {
 		return v
 	}
@@ -449,6 +454,11 @@ func C03(sp *spec.Spec, ex *rt.Exchange) *Verdict {
 			v.add("spurious-result", "client returned a result for a method without result")
 		}
 		return v
+	}
+	for _, l := range ex.LateChange {
+		if strings.HasPrefix(l, "client_out:") {
+			v.add("result-changed-after-return:"+kindOf(sp, m.Result.Type), "the result returned by the generated client changed after the call returned (memory shared with later responses): %s", l)
+		}
 	}
 	resp := pickResponse(m, oc.Result)
 	locOf := func(a string) valgen.Loc { return cases.RespLocOf(resp, a) }
@@ -712,4 +722,11 @@ func notDeliveredName(ex *rt.Exchange) string {
 		return errorNameOf(ex.WireResp)
 	}
 	return "none"
+}
+
+func payloadKind(sp *spec.Spec, m *spec.Method) string {
+	if m.Payload == nil {
+		return "none"
+	}
+	return kindOf(sp, m.Payload.Type)
 }
